@@ -340,9 +340,12 @@ def gen_wf_message(rng, marker_ok=False, max_groups=2, possdup=False):
     n_groups = rng.randrange(0, max_groups + 1)
     plan = ["p"] * n_plain + ["g"] * n_groups
     rng.shuffle(plan)
+    member_plain = sorted({m_ for ms in t.values() for m_ in ms if m_ not in t and m_ not in HEADER_TAGS})
     for what in plan:
         if what == "p":
-            k = plain_tags(rng)
+            # sometimes a tag that is ALSO a member of some group (Commission(12) / ListID(66) / Currency(15) at message
+            # level): well formed as long as it does not follow a group it is an open member of (checked below)
+            k = rng.choice(member_plain) if (member_plain and rng.random() < 0.25) else plain_tags(rng)
             if k in used:
                 continue
             used.add(k)
@@ -354,6 +357,9 @@ def gen_wf_message(rng, marker_ok=False, max_groups=2, possdup=False):
             used.add(g)
             n = rng.randrange(1, 4)
             body.append([cp(g), [1, [gen_item(rng, g, 2, marker_ok=marker_ok) for _ in range(n)]]])
+    if not wf_level(body, None, 0):
+        # a member tag landed behind a group that leaves it open: keep the message without those tags
+        body = [e for e in body if not (e[1][0] == 0 and txt(e[0]) in member_plain)]
     return [cp(mt), body]
 
 
